@@ -56,5 +56,6 @@ func (f *Add) Call(s *slip.Scope, args slip.List, depth int) (result slip.Object
 	default:
 		slip.TypePanic(s, depth, "list", ta, "list")
 	}
-	return append(list, args[1:]...)
+	// Never append into spare capacity: the backing array may be shared with other lists.
+	return append(list[:len(list):len(list)], args[1:]...)
 }
